@@ -289,10 +289,17 @@ def instantiate(tag, docs, dumps, ids, chunk=40, timeout=1200):
         rc, out, err = vlib.coqc_file(f, timeout)
         return rc, (out + err)[-1500:]
     bad = []
-    with ThreadPoolExecutor(max_workers=min(8, vlib.NCPU)) as pool:
-        for f, (rc, txt) in zip(files, pool.map(one, files)):
-            if rc != 0:
-                bad.append(os.path.basename(f) + ": " + txt)
+    for attempt in (0, 1):
+        # other checks regenerate Gen/*.v tables and rebuild shared .vo files concurrently: make sure
+        # Props/C05.vo is consistent with its dependencies right now, and retry once on a stale-library error
+        vlib.coq_make(["theories/Props/C05.vo"])
+        bad = []
+        with ThreadPoolExecutor(max_workers=min(8, vlib.NCPU)) as pool:
+            for f, (rc, txt) in zip(files, pool.map(one, files)):
+                if rc != 0:
+                    bad.append(os.path.basename(f) + ": " + txt)
+        if not any("inconsistent assumptions" in b for b in bad):
+            break
     return not bad, "\n".join(bad)[:2500], n
 
 
@@ -705,6 +712,78 @@ def all_branches_reject(doc, schema, inst, depth=0):
     return False
 
 
+# ---------------------------------------------------------------------------
+# closed objects produced THROUGH a merge (allOf / $ref + siblings): the closed-object constraint of one
+# conjunct must survive whatever the other conjuncts say about additionalProperties, in every order
+# ---------------------------------------------------------------------------
+AP = {"absent": None, "true": True, "false": False, "schema": {"type": "integer"}}
+
+def branch(props, req, ap):
+    b = {"type": "object", "properties": {k: {"type": "string"} if k != "size" else {"type": "integer"} for k in props}}
+    if req:
+        b["required"] = req
+    if ap != "absent":
+        b["additionalProperties"] = AP[ap]
+    return b
+
+def merge_case(name, aps, form):
+    """aps: tuple of ap kinds per branch; every branch declares the same members (so a closed branch does not
+    exclude the other branches' members)"""
+    props = ["name", "size"]
+    bs = [branch(props, ["name"] if k == 0 else [], ap) for k, ap in enumerate(aps)]
+    if form == "allOf":
+        defs = {"W": {"allOf": bs}}
+    elif form == "allOf-ref":
+        defs = {"Base": bs[0], "W": {"allOf": [{"$ref": "#/definitions/Base"}] + bs[1:]}}
+    else:   # $ref with sibling keywords
+        sib = dict(bs[1]); sib.pop("type", None)
+        defs = {"Base": bs[0], "W": dict({"$ref": "#/definitions/Base"}, **sib)}
+    good = {"name": "a", "size": 3}
+    probes = [{"t": "W", "input": good}, {"t": "W", "input": dict(good, colour="red")}, {"t": "W", "input": dict(good, extra=7)},
+              {"t": "W", "input": {"size": 3}}, {"t": "W", "input": {"name": 5}}]
+    c = {"defs": defs, "probes": probes, "expect": "any"}
+    if form == "ref-siblings":
+        c["exact"] = "any"      # draft-07 ignores the siblings of "$ref"; typify merges them: not understood by `exact`
+    return (name, c)
+
+def tuple_case(name, ais):
+    AI = {"absent": None, "true": True, "false": False}
+    bs = []
+    for ai in ais:
+        b = {"type": "array", "items": [{"type": "string"}, {"type": "integer"}], "minItems": 2}
+        if ai != "absent":
+            b["additionalItems"] = AI[ai]
+        bs.append(b)
+    defs = {"W": {"allOf": bs}}
+    probes = [{"t": "W", "input": ["a", 1]}, {"t": "W", "input": ["a", 1, 2]}, {"t": "W", "input": ["a"]}, {"t": "W", "input": [1, 1]}]
+    return (name, {"defs": defs, "probes": probes, "expect": "any"})
+
+def merge_corpus(full):
+    """closed objects arising THROUGH a merge: every combination of additionalProperties in {absent, true, false,
+    schema} over two conjuncts in both orders, as allOf, allOf with a $ref conjunct, and $ref with sibling keywords
+    (quick: the latter two forms only for the combinations that involve `false`); tuples with additionalItems"""
+    import itertools
+    out = []
+    for aps in itertools.product(AP, repeat=2):
+        for form in ("allOf", "allOf-ref", "ref-siblings"):
+            if form != "allOf" and not full and "false" not in aps:
+                continue
+            out.append(merge_case("merge-%s-%s" % (form, "-".join(aps)), aps, form))
+    for ais in itertools.product(("absent", "true", "false"), repeat=2):
+        if full or "false" in ais:
+            out.append(tuple_case("merge-tuple-%s" % "-".join(ais), ais))
+    return out
+
+def merge_cases(seed, n):
+    import random
+    rnd = random.Random(seed * 15485863 + 9)
+    out = []
+    for k in range(n):
+        aps = tuple(rnd.choice(list(AP)) for _ in range(3))
+        out.append(merge_case("rand-merge-%d-%s" % (k, "-".join(aps)), aps, rnd.choice(["allOf", "allOf-ref"])))
+    return out
+
+
 def builder_scan(gens):
     """struct_builder = true: every builder field is private, every setter converts
     through TryInto, so a constrained-type member can only be filled by a validated value"""
@@ -1000,6 +1079,8 @@ def run(ctx):
             cc.append(("replay", c))
     cc += default_cases(ctx.seed, 10 if quick else 40)
     cc += float_cases(ctx.seed, 4 if quick else 16)
+    cc += merge_corpus(full=not quick)
+    cc += merge_cases(ctx.seed, 4 if quick else 16)
     ccases = [{"settings": c.get("settings", {}), "steps": [{"op": "refs", "defs": c["defs"]}]} for _, c in cc]
     cw = world.World(ctx, wname + "c", ccases)
     cw.build()
@@ -1008,7 +1089,9 @@ def run(ctx):
     for i, (name, c) in enumerate(cc):
         st = cw.status[i]
         exp = c.get("expect", "ok")
-        if (exp == "ok") != (st == "ok") or (exp == "rejected" and st != "not-generated"):
+        if exp == "any":
+            pass        # the schema may be refused (unsupported merge): then there is no type to bypass
+        elif (exp == "ok") != (st == "ok") or (exp == "rejected" and st != "not-generated"):
             cbad.append({"case": name, "expected": exp, "status": st, "steps": cw.gen[i].get("steps"),
                          "errors": cw.compile_errors.get(i)})
         if st != "ok":
@@ -1041,6 +1124,16 @@ def run(ctx):
     couts = cw.query(creqs) if creqs else []
     cverd = [x for b in oracle.classify(cbatches) for x in b] if cbatches else []
     n_cur = 0
+    if MUT == "merge_true_false_open":
+        flipped = []
+        for (i, name, c, p), o in zip(cmeta, couts):
+            txt = json.dumps(c["defs"])
+            if name.startswith(("merge-", "rand-merge-")) and '"additionalProperties": true' in txt and \
+                    '"additionalProperties": false' in txt and isinstance(p["input"], dict) and \
+                    set(p["input"]) - {"name", "size"} and "name" in p["input"] and "err" in o:
+                o = {"ok": p["input"], "text": json.dumps(p["input"])}
+            flipped.append(o)
+        couts = flipped
     if MUT == "float_tolerance":
         # emulate `(*v - value).abs() <= f64::EPSILON` instead of `contains(&value)` in TryFrom<f64>
         flipped = []
@@ -1145,6 +1238,8 @@ def run(ctx):
         cwrong = []
         for (i, n), r in cres.items():
             want = "F" if cc[i][1].get("exact") == "false" else "T"
+            if cc[i][1].get("exact") == "any":
+                continue
             if r != want:
                 cwrong.append({"case": cc[i][0], "definition": n, "exact": r, "expected": want})
         ctx.oblige("validator on the curated corpus: true on every definition (incl. the regression cases of the fixed C05-F1) (%d definitions)" % len(cres),
